@@ -110,7 +110,7 @@ Proof. vm_compute. reflexivity. Qed.
    Both directions of a structure with a descriptor LIST, over the REGENERATED bodies of builder and decoder (Gen/PyFuncs.v) under the
    semantics of the small Python (Model/Py.v): GET LBA STATUS, any number of descriptors. *)
 From Coq Require Import ZArith List.
-From PS Require Import Model.Py Proofs.PyParsers Proofs.PyTotal Proofs.PyRoundTrip Proofs.PyRoundTrip2 Proofs.PyRoundTrip3 Gen.PyFuncs.
+From PS Require Import Model.Py Proofs.PyParsers Proofs.PyTotal Proofs.PyRoundTrip Proofs.PyRoundTrip2 Proofs.PyRoundTrip3 Proofs.PyBuilders Proofs.PyRoundTrip4 Gen.PyFuncs.
 Import ListNotations.
 
 (* the builder: header whose PARAMETER DATA LENGTH counts what follows it, then one 16-byte descriptor per dictionary, in order *)
@@ -202,3 +202,28 @@ Proof.
   - do 11 right. left. reflexivity.
   - repeat constructor.
 Qed.
+
+(* the same with the extended header (FORMAT TYPE 1): the four header bytes are what encode_dict makes of the two header fields, and FORMAT
+   TYPE and IMPLICIT TRANSITION TIME come back with the groups *)
+Theorem C06_py_rtpg_parse_inverts_build_extended : forall (groups : list (list (String.string * value) * list N)) (itt : N) f,
+  Forall tg_group_ok groups -> itt < 256 ->
+  (Z.of_nat (4 + fold_right (fun g acc => (8 + 4 * length (snd g) + acc)%nat) 0%nat groups) < 4294967296)%Z ->
+  (2 * fold_right (fun g acc => (8 + 4 * length (snd g) + acc)%nat) 0%nat groups + 4 <= f)%nat ->
+  exists built,
+    call_fun all_tables py_program f RTPGM
+      [PDict [("format_type", PInt 1); ("implicit_transition_time", PInt (Z.of_N itt)); ("target_port_group_descriptors", PList (map tg_group_dict groups))]] = Ok (PBytes built) /\
+    call_fun all_tables py_program f RTPG [PBytes built] =
+      Ok (PDict [("format_type", PInt 1); ("implicit_transition_time", PInt (Z.of_N itt)); ("target_port_group_descriptors", PList (map tg_group_dict groups))]).
+Proof. exact rtpg_parse_inverts_build_extended. Qed.
+
+(* TransportIDs of the fixed 24-byte kinds, builder and decoder over the regenerated bodies: the decoder returns exactly the dictionary the
+   TransportID was built from — Fibre Channel (N_PORT NAME at bytes 8..15) and SAS (SAS ADDRESS at bytes 4..11), every 8-byte name *)
+Theorem C06_py_transport_id_fc_round_trip : forall (name : bytes) f, length name = 8%nat -> (1 <= f)%nat ->
+  exists built, call_fun all_tables py_program f MTI [tid_dict 0 "n_port_name" name] = Ok (PBytes built) /\ length built = 24%nat /\
+    tid_decodes built (tid_dict 0 "n_port_name" name).
+Proof. exact transport_id_fc_round_trip. Qed.
+
+Theorem C06_py_transport_id_sas_round_trip : forall (name : bytes) f, length name = 8%nat -> (1 <= f)%nat ->
+  exists built, call_fun all_tables py_program f MTI [tid_dict 6 "sas_address" name] = Ok (PBytes built) /\ length built = 24%nat /\
+    tid_decodes built (tid_dict 6 "sas_address" name).
+Proof. exact transport_id_sas_round_trip. Qed.
